@@ -264,7 +264,13 @@ TRANSLATORS = {"scoring": ([("ScoringGen.v", "scoring")], "ScoringGenProof.v"),
                "rootn": ([("RootnGen.v", "rootn")], "RootnGenProof.v"),
                "flow": ([("FlowGen.v", "flow")], "FlowGenProof.v"),
                # a file name with translate function None is a committed proof file the last one builds on
-               "bip": ([("FlowGen.v", "flow"), ("FlowGenProof.v", None), ("BipGen.v", "flow2")], "BipGenProof.v")}
+               "bip": ([("FlowGen.v", "flow"), ("FlowGenProof.v", None), ("BipGen.v", "flow2")], "BipGenProof.v"),
+               "preflib": ([("PreflibGen.v", "preflib")], "PreflibGenProof.v"),
+               "randscoring": ([("RandGen.v", "randscoring")], "RandGenProof.v"),
+               "mwm": ([("MwmGen.v", "mwm")], "MwmGenProof.v"),
+               "rsd": ([("RsdGen.v", "rsd")], "RsdGenProof.v"),
+               "gsres": ([("GsResGen.v", "gs_res")], "GsResGenProof.v"),
+               "gshosp": ([("GsResGen.v", "gs_res"), ("GsHospGen.v", "gs_hosp")], "GsHospGenProof.v")}
 
 def translator_obligation(name):
     """regenerate the model of <name> from /repo's current source (harness/translate.py), compile it, and re-check the
